@@ -38,6 +38,16 @@ def handle (op : String) (j : Json) : Option (R Json) :=
                                ("slots", Json.arr (slots.map Json.str).toArray)]
         (step Gen.effTable s o, out ++ [ans])) (s0, [])
       pure (okJ [("steps", Json.arr outs.toArray)])
+  | "heap.rows" => some do
+      -- per function: what the generated table allows (write slots, global generator, cache)
+      let fns ← (← getArr j "fns").toList.mapM (·.getStr?)
+      let outs := fns.map fun fn =>
+        match row? Gen.effTable fn with
+        | none => Json.mkObj [("known", Json.bool false)]
+        | some r => Json.mkObj [("known", Json.bool true), ("pub", Json.bool r.pub),
+                                ("slots", Json.arr (r.writes.map fun w => Json.str w.1).toArray),
+                                ("rng", Json.bool r.globalRng), ("cache", Json.bool (!r.cacheWrites.isEmpty))]
+      pure (okJ [("rows", Json.arr outs.toArray)])
   | "heap.table" => some do
       pure (okJ [("rows", Json.num (JsonNumber.fromNat Gen.effTable.length)),
                  ("caches", Json.arr (Gen.effCaches.map Json.str).toArray)])
